@@ -31,17 +31,29 @@ namespace occa {
     }
 
     hash_t device::kernelHash(const occa::json &props) const {
-      return (
-        occa::hash(props["compiler"])
-        ^ props["compiler_flags"]
-        ^ props["compiler_env_script"]
-        ^ props["compiler_vendor"]
-        ^ props["compiler_language"]
-        ^ props["compiler_linker_flags"]
-        ^ props["compiler_shared_flags"]
-        ^ props["include_occa"]
-        ^ props["link_occa"]
-      );
+      // Hash every value together with the name of its property and chain the
+      // results.  XOR-ing the bare value hashes gave the same key when two
+      // properties swapped their values, and two properties with equal values
+      // cancelled each other (flags == linker flags == X had the key of
+      // flags == linker flags == Y)
+      const char *keys[] = {
+        "compiler",
+        "compiler_flags",
+        "compiler_env_script",
+        "compiler_vendor",
+        "compiler_language",
+        "compiler_linker_flags",
+        "compiler_shared_flags",
+        "include_occa",
+        "link_occa"
+      };
+      hash_t hash_ = occa::hash("serial::device::kernelHash");
+      for (const char *key : keys) {
+        hash_ = occa::hash(
+          hash_.getFullString() + key + occa::hash(props[key]).getFullString()
+        );
+      }
+      return hash_;
     }
 
     //---[ Stream ]---------------------
